@@ -21,6 +21,8 @@ os.environ.setdefault("PYTHONHASHSEED", "0")
 HERE = Path(__file__).resolve().parent
 sys.path.insert(0, str(HERE))
 
+import logging
+logging.disable(logging.CRITICAL)
 import common  # noqa: E402
 from common import (BuildError, Ctx, Failure, COQ, EVIDENCE, REPLAYS, VERIF, WORK,  # noqa: E402
                     jsonable, known_match)
